@@ -57,4 +57,6 @@ def main():
     print(f"{n}/{len(res)} refactors raise an alarm")
 
 if __name__ == "__main__":
+    import subprocess as _sp, os as _os
+    _sp.run([_os.path.join(_os.path.dirname(_os.path.abspath(__file__)), "build.sh")], check=True)
     main()
